@@ -314,4 +314,17 @@ def registryLoad (file : Option Bytes) (utf8 : Bool) (parsed : Option Nat) : Res
       | some n => .ok n
       | none => .err ()
 
+/-- File content after `NodeRegistry::save` writes `new` over a file holding `old`: the whole content is
+replaced when the file is emptied first; otherwise the tail of a longer old content survives. -/
+def saveFile (old new : Bytes) : Bytes :=
+  if registrySaveTruncates then new else new ++ old.drop new.length
+
+/-- `save(A) ; save(B) ; load` on one path, at the level of lengths: `lenA`/`lenB` are the lengths of the
+two JSON texts (serde_json's `to_string`, abstract), `nodesB` what parsing B's text gives.  A file that
+is B's text followed by a rest of A's text does not parse ("trailing characters").
+Value: (length of the file, number of nodes loaded). -/
+def saveSaveLoad (lenA lenB nodesB : Nat) : Nat × Res Unit Nat :=
+  let fileLen := (saveFile (saveFile [] (List.replicate lenA 0)) (List.replicate lenB 1)).length
+  (fileLen, if fileLen = lenB then registryLoad (some (List.replicate lenB 1)) true (some nodesB) else .err ())
+
 end SafeNet.Parsers
